@@ -97,6 +97,7 @@ package commonmark
 //@   havoccall (*InlineParser).parseDelimiterRun, (*InlineParser).parseEndBracket, (*InlineParser).parseCodeSpan, (*InlineParser).collectCodeSpan, parseHTMLTag, nodeIndexForPosition, (*InlineParser).processEmphasis keeps inlineState.source, inlineState.root, inlineState.parentMap
 //@   havoccall collectRawHTML keeps inlineState.source, inlineState.root, inlineState.parentMap, Inline.kind
 //@   callsite (*inlineState).addToRoot: requires[shape] LeafShape($1, state.source)
+//@   callsite (*inlineState).addToRoot: requires[parsed] $1.kind != UnparsedKind && $1.kind != 0
 //@   callsite (*InlineParser).parseBackslash: requires[at] source[pos] == '\\'
 //@   loop 0: invariant[state] !isnil(state) && !isnil(dummy) && state.root == dummy && state.parentMap != nil && aliases(state.source, source) && len(state.source) == len(source)
 //@   loop 1: invariant[state] !isnil(state) && !isnil(dummy) && state.root == dummy && state.parentMap != nil && aliases(state.source, source) && len(state.source) == len(source)
@@ -106,4 +107,4 @@ package commonmark
 //@   nosafety nil the unparsed nodes of a block are never nil (assumption A-NODEINV, C05)
 //@   nosafety range positions are bounded by the length of Source (assumption A-C02-1)
 //@   unclaimed dec the scanner's progress (every iteration consumes input) is not under contract here
-//@   serves C13
+//@   serves C13, C05
